@@ -586,7 +586,7 @@ def generate(ctx):
     for L in range(0, 6 if quick else 8):
         ctx.count("slice_kernel", ("sl", L), nontrivial=L > 0)
         yield "slice_kernel", {"L": L}
-    n_hist = 400 if quick else 3000
+    n_hist = 700 if quick else 4000
     forced = ["one", "row", "col", "1d", "thin", "2d"]
     for i in range(n_hist):
         c, strata = G.gen_c11_case(rng, ctx.tier, kind=forced[i] if i < len(forced) else None)
@@ -608,8 +608,10 @@ def generate(ctx):
             ctx.sample({"site": "history", **c})
         yield "history", c
         c2 = copy.deepcopy(c)
+        ctx.count("set_semantics", None)
         yield "set_semantics", c2
         if i % 2 == 0 and c["ny"] * c["nx"] > 1:
+            ctx.count("geometry", None)
             yield "geometry", copy.deepcopy(c)
     n_item = 150 if quick else 1000
     for i in range(n_item):
